@@ -120,7 +120,7 @@ def main(tier, write_baseline=False):
         if o["name"] in seen:
             continue
         seen.add(o["name"])
-        fi = rule_inputs.get(o["name"])
+        fi = rule_inputs.get(o["name"]) or common.model_replay("contracts.C01", o)
         run.violation(o["name"], "obligation refuted by %s on path %s%s" % (o["backend"], " ".join(o["trace"]), (": " + "; ".join(o.get("notes") or [])) if o.get("notes") else ""),
                       failing_input=fi, solver_output={"model": o["model"], "smt2": (o["smt2"] or "")[:4000], "notes": o.get("notes")})
     M.report(run, "C01/bounded", fails)
